@@ -194,6 +194,9 @@ func RunScenario(t *testing.T, sc *Scenario) *Result {
 	wall := time.Now()
 	var simStart, simEnd time.Time
 	func() {
+		Tick()
+		watching.Store(true)
+		defer watching.Store(false)
 		defer func() {
 			if r := recover(); r != nil {
 				msg := fmt.Sprint(r)
